@@ -1,6 +1,8 @@
 import PeptVerif.Model.Isotope
 import Mathlib.Tactic.Ring
 import Mathlib.Tactic.Linarith
+import Mathlib.Tactic.FieldSimp
+import Mathlib.Tactic.NormNum
 /-!
 # Helper lemmas for C14: the "integral" calculus of key-merged distributions
 
@@ -462,5 +464,274 @@ theorem moment_convolveList (L : List (Dist Rat × Nat)) (d : Dist Rat) (hL : Li
           (fun y hy => h1 y (List.mem_cons_of_mem _ hy)),
         moment_convolve _ _ _ (allKept_zero _ _ hd he), total_convolve _ _ _ _ (allKept_zero _ _ hd he), hte, hme]
     ring
+
+/-! ### after the element loop -/
+
+def normalized (o : Opts) (total : Dist Rat) (mx : Rat) : Dist Rat :=
+  ((sortByKey total).filter (fun p => decide (o.minAbundanceThreshold.getD 0 ≤ p.2 / mx))).map (fun p => (p.1, p.2 / mx))
+
+/-- the key transformation applied after normalisation -/
+def shiftFn (o : Opts) (particle delta fm : Rat) (x : Rat) : Rat :=
+  let x1 := if delta ≠ 0 then
+      (if !o.useNeutronCount then x + delta else if o.outputMassesForNeutronOffset then x + delta else x) else x
+  let x2 := if o.outputMassesForNeutronOffset && o.useNeutronCount then fm + x1 * o.neutronMass else x1
+  if particle ≠ 0 && (!o.useNeutronCount || o.outputMassesForNeutronOffset) then x2 + particle else x2
+
+theorem finishDistribution_eq (o : Opts) (total : Dist Rat) (particle delta fm : Rat) :
+    finishDistribution o total particle delta fm =
+      match maxAb total with
+      | none => .error .valueError
+      | some mx => if mx = 0 then .error .zeroDiv else
+          scaleAbundances ((normalized o total mx).map (fun p => (shiftFn o particle delta fm p.1, p.2)))
+            o.distributionAbundance o.isAbundanceSum o.precision := by
+  unfold finishDistribution
+  cases hm : maxAb total with
+  | none => rfl
+  | some mx =>
+    simp only []
+    split
+    · rfl
+    · congr 1
+      unfold shiftFn normalized
+      by_cases hd : delta ≠ 0 <;> by_cases hp : particle ≠ 0 <;> cases o.useNeutronCount <;> cases o.outputMassesForNeutronOffset <;>
+        simp [hd, hp, List.map_map, Function.comp_def]
+
+theorem maxAb_eq_none (d : Dist Rat) (h : maxAb d = none) : d = [] := by
+  cases d with
+  | nil => rfl
+  | cons p t =>
+    obtain ⟨k, a⟩ := p
+    simp only [maxAb] at h
+    cases hm : maxAb t <;> simp [hm] at h
+
+theorem maxAb_spec (d : Dist Rat) (mx : Rat) (h : maxAb d = some mx) : (∃ p ∈ d, p.2 = mx) ∧ ∀ p ∈ d, p.2 ≤ mx := by
+  induction d generalizing mx with
+  | nil => simp [maxAb] at h
+  | cons p t ih =>
+    obtain ⟨k, a⟩ := p
+    simp only [maxAb] at h
+    cases hm : maxAb t with
+    | none =>
+      simp only [hm, Option.some.injEq] at h
+      subst h
+      have := maxAb_eq_none t hm
+      subst this
+      exact ⟨⟨(k, a), List.mem_cons_self .., rfl⟩, by intro p hp; simp at hp; subst hp; exact le_refl _⟩
+    | some m =>
+      simp only [hm, Option.some.injEq] at h
+      obtain ⟨⟨q, hq, hqm⟩, hall⟩ := ih m hm
+      by_cases hlt : m < a
+      · simp only [hlt, if_true] at h
+        subst h
+        refine ⟨⟨(k, a), List.mem_cons_self .., rfl⟩, ?_⟩
+        intro p hp
+        rcases List.mem_cons.1 hp with h1 | h1
+        · subst h1; exact le_refl _
+        · exact le_of_lt (lt_of_le_of_lt (hall p h1) hlt)
+      · simp only [hlt, if_false] at h
+        subst h
+        refine ⟨⟨q, List.mem_cons_of_mem _ hq, hqm⟩, ?_⟩
+        intro p hp
+        rcases List.mem_cons.1 hp with h1 | h1
+        · subst h1; exact not_lt.1 hlt
+        · exact hall p h1
+
+theorem sortByKey_perm (d : Dist Rat) : (sortByKey d).Perm d := List.mergeSort_perm _ _
+
+theorem sortByKey_sorted (d : Dist Rat) : (sortByKey d).Pairwise (fun a b => a.1 ≤ b.1) := by
+  have := List.pairwise_mergeSort (le := fun (a b : Rat × Rat) => decide (a.1 ≤ b.1))
+    (by intro a b c hab hbc; simp only [decide_eq_true_eq] at *; exact le_trans hab hbc)
+    (by intro a b; simp only [Bool.or_eq_true, decide_eq_true_eq]; exact le_total _ _) d
+  simpa [sortByKey] using this
+
+/-- keys are pairwise distinct (a Python dict) -/
+def NodupKeys (d : Dist κ) : Prop := (d.map (·.1)).Nodup
+
+theorem sortByKey_strict (d : Dist Rat) (hn : NodupKeys d) : (sortByKey d).Pairwise (fun a b => a.1 < b.1) := by
+  have hs := sortByKey_sorted d
+  have hnd : ((sortByKey d).map (·.1)).Nodup := ((sortByKey_perm d).map _).nodup_iff.2 hn
+  have hne : (sortByKey d).Pairwise (fun a b => a.1 ≠ b.1) := by
+    simpa [List.Nodup, List.pairwise_map] using hnd
+  exact (hs.and hne).imp (fun h => lt_of_le_of_ne h.1 h.2)
+
+section
+variable [DecidableEq κ] [Add κ]
+
+theorem nodupKeys_convRow (rnd : κ → κ) (thr : Option Rat) (m1 : κ) (a1 : Rat) (d2 acc : Dist κ) (h : NodupKeys acc) :
+    NodupKeys (convRow rnd thr m1 a1 d2 acc) := by
+  induction d2 generalizing acc with
+  | nil => simpa [convRow] using h
+  | cons p t ih =>
+    obtain ⟨m2, a2⟩ := p
+    simp only [convRow]
+    apply ih
+    split
+    · exact nodup_keys_addKey _ _ _ h
+    · exact h
+
+theorem nodupKeys_convLoop (rnd : κ → κ) (thr : Option Rat) (d1 d2 acc : Dist κ) (h : NodupKeys acc) :
+    NodupKeys (convLoop rnd thr d1 d2 acc) := by
+  induction d1 generalizing acc with
+  | nil => simpa [convLoop] using h
+  | cons p t ih =>
+    obtain ⟨m1, a1⟩ := p
+    simp only [convLoop]
+    exact ih _ (nodupKeys_convRow rnd thr m1 a1 d2 acc h)
+
+theorem nodupKeys_convolve (rnd : κ → κ) (thr : Option Rat) (maxIso : Option Nat) (d1 d2 : Dist κ) :
+    NodupKeys (convolve rnd thr maxIso d1 d2) := by
+  have hl : NodupKeys (convLoop rnd thr d1 d2 []) := nodupKeys_convLoop rnd thr d1 d2 [] List.nodup_nil
+  simp only [convolve]
+  cases maxIso with
+  | none => exact hl
+  | some n =>
+    have hp : NodupKeys (sortDesc (convLoop rnd thr d1 d2 [])) := ((sortDesc_perm _).map _).nodup_iff.2 hl
+    exact List.Nodup.sublist ((List.take_sublist n _).map _) hp
+
+end
+
+theorem nodupKeys_convolveList (rnd : Rat → Rat) (thr : Option Rat) (maxIso : Option Nat) (floor : Option Rat)
+    (L : List (Dist Rat × Nat)) (d : Dist Rat) (hd : NodupKeys d) : NodupKeys (convolveList rnd thr maxIso floor L d) := by
+  induction L generalizing d with
+  | nil => exact hd
+  | cons x t ih => obtain ⟨isos, n⟩ := x; exact ih _ (nodupKeys_convolve _ _ _ _ _)
+
+/-! `_scale_isotope_abundances` -/
+
+theorem scaleAbundances_sum (d out : Dist Rat) (a : Rat)
+    (h : scaleAbundances d a true none = .ok out) (hne : out ≠ []) : sumAb out = a := by
+  unfold scaleAbundances at h
+  simp only [if_true] at h
+  by_cases ht : sumAb d = 0
+  · simp only [ht, if_true] at h
+    cases d with
+    | nil => simp [Except.map] at h; exact absurd h hne
+    | cons p t => simp [Except.map] at h
+  · simp only [ht, if_false, Except.map, Except.ok.injEq] at h
+    subst h
+    have hT : sumAb d = integral d (fun _ => 1) := (total_eq_sumAb d).symm
+    rw [← total_eq_sumAb]
+    unfold total
+    rw [integral_scale, integral_div, hT]
+    rw [hT] at ht
+    field_simp
+
+theorem scaleAbundances_max (d out : Dist Rat) (a : Rat) (h : scaleAbundances d a false none = .ok out) :
+    out = d.map (fun p => (p.1, p.2 * a)) := by
+  unfold scaleAbundances at h
+  simp [Except.map] at h
+  exact h.symm
+
+theorem scaleAbundances_keys (d out : Dist Rat) (a : Rat) (s : Bool)
+    (h : scaleAbundances d a s none = .ok out) : out.map (·.1) = d.map (·.1) := by
+  unfold scaleAbundances at h
+  cases s
+  · simp [Except.map] at h; subst h; simp [List.map_map, Function.comp_def]
+  · simp only [if_true] at h
+    by_cases ht : sumAb d = 0
+    · simp only [ht, if_true] at h
+      cases d with
+      | nil => simp [Except.map] at h; subst h; rfl
+      | cons p t => simp [Except.map] at h
+    · simp only [ht, if_false, Except.map, Except.ok.injEq] at h
+      subst h; simp [List.map_map, Function.comp_def]
+
+/-! ### `rawDistribution` and the generated table -/
+open PeptVerif.Gen.C14 in
+section
+open PeptVerif.Gen.C14
+def cleanFormula (f : Formula) : List (Key × Int) :=
+  ((popCount (popCount (popCount f eKey).2 pKey).2 nKey).2.filter (fun p => p.2.val ≠ 0)).map (fun p => (p.1, p.2.round))
+
+def particleOf (f : Formula) : Rat :=
+  (popCount (popCount f eKey).2 pKey).1 * protonMass + (popCount (popCount (popCount f eKey).2 pKey).2 nKey).1 * neutronMass
+    + (popCount f eKey).1 * electronMass
+
+theorem rawDistribution_ok (f : Formula) (o : Opts) (t : Dist Rat) (p d m : Rat)
+    (h : rawDistribution f o = .ok (t, p, d, m)) :
+    ∃ L, resolve o (cleanFormula f) = some L ∧
+      t = convolveList (roundOpt o.resolution) (some (o.convMinAbundanceThreshold.getD 0)) o.maxIsotopes o.floor L [((0 : Rat), 1)] ∧
+      p = particleOf f := by
+  unfold rawDistribution at h
+  simp only [] at h
+  split at h
+  · cases h
+  · split at h
+    · cases h
+    · cases h
+    · split at h
+      · cases h
+      · next total hc =>
+        simp only [Except.ok.injEq, Prod.mk.injEq] at h
+        obtain ⟨L, hL⟩ := convolveAll_ok _ _ _ _ hc
+        refine ⟨L, hL, ?_, ?_⟩
+        · have := convolveAll_eq o _ [((0 : Rat), 1)] L hL
+          rw [this] at hc
+          simp only [Except.ok.injEq] at hc
+          rw [← h.1, ← hc]
+        · exact h.2.1.symm
+
+theorem table_pos : ∀ e ∈ table, ∀ i ∈ e.2.2, 0 < i.2.2 := by decide +kernel
+
+
+theorem lookupEntry_mem (k : Key) (e : Entry) (h : lookupEntry k = some e) : e ∈ table :=
+  List.mem_of_find?_eq_some h
+
+theorem abOf_pos (n : Nat) (h : 0 < n) : 0 < abOf n := by
+  unfold abOf
+  apply div_pos
+  · exact_mod_cast h
+  · unfold abScale; norm_num
+
+theorem allPos_isosOf (o : Opts) (e : Entry) (he : e ∈ table) : AllPos (isosOf o e) := by
+  unfold isosOf
+  split
+  · unfold offsetIsotopes
+    split
+    · intro p hp; simp at hp
+    · next i0 t heq =>
+      intro p hp
+      simp only [List.mem_map] at hp
+      obtain ⟨i, hi, rfl⟩ := hp
+      exact abOf_pos _ (table_pos e he i (by rw [heq]; exact hi))
+  · unfold massIsotopes
+    intro p hp
+    simp only [List.mem_map] at hp
+    obtain ⟨i, hi, rfl⟩ := hp
+    exact abOf_pos _ (table_pos e he i hi)
+
+theorem listPos_of_resolve (o : Opts) (f : List (Key × Int)) (L : List (Dist Rat × Nat)) (h : resolve o f = some L) :
+    ListPos L := by
+  induction f generalizing L with
+  | nil => simp only [resolve, Option.some.injEq] at h; subst h; intro x hx; simp at hx
+  | cons p t ih =>
+    obtain ⟨k, c⟩ := p
+    simp only [resolve] at h
+    cases hk : lookupEntry k with
+    | none => simp [hk] at h
+    | some e =>
+      cases hr : resolve o t with
+      | none => simp [hk, hr] at h
+      | some r =>
+        simp only [hk, hr, Option.some.injEq] at h
+        subst h
+        intro x hx
+        rcases List.mem_cons.1 hx with h1 | h1
+        · subst h1; exact allPos_isosOf o e (lookupEntry_mem k e hk)
+        · exact ih r hr x h1
+
+end
+
+theorem allPos_start : AllPos [((0 : Rat), (1 : Rat))] := by
+  intro p hp; simp at hp; subst hp; decide
+
+theorem shiftFn_strictMono (o : Opts) (particle delta fm : Rat) (hn : 0 < o.neutronMass) (x y : Rat) (h : x < y) :
+    shiftFn o particle delta fm x < shiftFn o particle delta fm y := by
+  have hm : x * o.neutronMass < y * o.neutronMass := mul_lt_mul_of_pos_right h hn
+  have hm' : (x + delta) * o.neutronMass < (y + delta) * o.neutronMass :=
+    mul_lt_mul_of_pos_right (by linarith) hn
+  unfold shiftFn
+  simp only []
+  split_ifs <;> linarith
 
 end Isotope
